@@ -697,11 +697,90 @@ def set_method(I, s, name):
 
 
 def sseq_method(I, s, name):
-    raise PyvcError(f"method {name} on a symbolic-length sequence not modelled")
+    """Methods of a list of symbolic length (library contract L-list)."""
+    from .interp import BuiltinFn
+
+    eng = I.eng
+
+    def pop(i=-1):
+        if i != -1:
+            raise PyvcError("symbolic list pop at an index other than -1")
+        if not I.decide(compare(">", s.length, 0)):
+            I.raise_("IndexError", "pop from empty list")
+        last = s.elem(arith("-", s.length, 1))
+        s.length = arith("-", s.length, 1)
+        return last
+
+    def sort(key=None, reverse=False):
+        # L-list.sort: the result is a permutation of the list (its order is NOT constrained: the
+        # obligations must hold for every order the key may induce)
+        n = s.length
+        tag = eng.fresh_name("perm")
+        p = z3.Function(tag, z3.IntSort(), z3.IntSort())
+        q = z3.Function(tag + "_inv", z3.IntSort(), z3.IntSort())
+        j = z3.Int("j!perm")
+        zn = tonum(n)
+        eng.assume(z3.ForAll([j], z3.Implies(z3.And(j >= 0, j < zn), z3.And(p(j) >= 0, p(j) < zn, q(p(j)) == j))))
+        eng.assume(z3.ForAll([j], z3.Implies(z3.And(j >= 0, j < zn), z3.And(q(j) >= 0, q(j) < zn, p(q(j)) == j))))
+        old_elem = s.elem
+        s.elem = lambda i, old_elem=old_elem, p=p: old_elem(SV(p(tonum(i))))
+        return None
+
+    def copy_():
+        return SSeq(s.length, s.elem, s.kind, s.name)
+
+    table = dict(pop=pop, sort=sort, copy=copy_)
+    if name not in table:
+        raise PyvcError(f"method {name} on a symbolic-length sequence not modelled")
+    if s.kind != "list" and name in ("pop", "sort"):
+        I.raise_("AttributeError", name)
+    return BuiltinFn("list." + name, table[name])
+
+
+LIBRARY_CONTRACTS["L-list"] = "list.sort yields a permutation (order unconstrained); filter comprehensions keep exactly the elements satisfying the condition, in order"
+
+
+def symbolic_filter(I, seq, cond, kind="list"):
+    """[x for x in seq if cond(x)] over a sequence of symbolic length (Skolemised)."""
+    eng = I.eng
+    n = tonum(seq.length)
+    tag = eng.fresh_name("filt")
+    f = z3.Function(tag, z3.IntSort(), z3.IntSort())
+    g = z3.Function(tag + "_pos", z3.IntSort(), z3.IntSort())
+    m = eng.fresh_int(tag + ".len")
+    zm = tonum(m)
+    j = z3.Int("j!filt")
+    i = z3.Int("i!filt")
+    I.spec_depth += 1
+    try:
+        cj = tobool(I.truth(cond(seq.elem(SV(f(j))))))
+        ci = tobool(I.truth(cond(seq.elem(SV(i)))))
+    finally:
+        I.spec_depth -= 1
+    eng.assume(z3.And(zm >= 0, zm <= n))
+    eng.assume(z3.ForAll([j], z3.Implies(z3.And(j >= 0, j < zm), z3.And(f(j) >= 0, f(j) < n, cj, g(f(j)) == j))))
+    eng.assume(z3.ForAll([i], z3.Implies(z3.And(i >= 0, i < n, ci), z3.And(g(i) >= 0, g(i) < zm, f(g(i)) == i))))
+    j1, j2 = z3.Ints("j1!filt j2!filt")
+    eng.assume(z3.ForAll([j1, j2], z3.Implies(z3.And(0 <= j1, j1 < j2, j2 < zm), f(j1) < f(j2))))
+    return SSeq(m, lambda k: seq.elem(SV(f(tonum(k)))), kind, tag)
+
+
+def ident_eq(a, b):
+    """Identity of indexed heap objects (elements of a symbolic sequence of objects)."""
+    ia, ib = getattr(a, "ident", None), getattr(b, "ident", None)
+    if ia is None or ib is None:
+        return None
+    if ia[0] != ib[0]:
+        return False
+    return compare("==", ia[1], ib[1])
 
 
 def equal_values(I, a, b):
     """Python `==` on arbitrary model values -> bool or SV."""
+    if isinstance(a, PObj) and isinstance(b, PObj):
+        r = ident_eq(a, b)
+        if r is not None and not (hasattr(a.cls, "node") and I.find_method(a.cls, "__eq__") is not None):
+            return r
     if a is b:
         if isinstance(a, float) and a != a:
             return False
@@ -779,6 +858,10 @@ def bytes_equal(I, a, b):
 def identical(I, a, b):
     if a is b:
         return True
+    if isinstance(a, PObj) and isinstance(b, PObj):
+        r = ident_eq(a, b)
+        if r is not None:
+            return r
     if a is None or b is None:
         return False
     if isinstance(a, bool) or isinstance(b, bool):
@@ -1036,7 +1119,7 @@ def norm_index(I, i, n):
             I.raise_("IndexError", "index out of range")
         return i if i >= 0 else i + n
     ok = sv_and(compare("<=", arith("-", 0, n), i), compare("<", i, n))
-    if not I.decide(ok):
+    if not I.in_spec and not I.decide(ok):
         I.raise_("IndexError", "index out of range")
     neg = compare("<", i, 0)
     if isinstance(neg, bool):
@@ -1172,6 +1255,12 @@ def snapshot(v, memo=None):
         return r
     if isinstance(v, tuple):
         return tuple(snapshot(x, memo) for x in v)
+    if isinstance(v, SSeq):
+        r = SSeq(v.length, v.elem, v.kind, v.name)
+        for k_, x_ in v.__dict__.items():
+            r.__dict__.setdefault(k_, x_)
+        memo[id(v)] = r
+        return r
     if isinstance(v, OneShot):
         r = OneShot(v.items)
         r.consumed = v.consumed
@@ -1217,6 +1306,11 @@ def havoc_like(I, cur, name):
         return tuple(havoc_like(I, x, f"{name}.{i}") for i, x in enumerate(cur))
     if cur is None:
         raise PyvcError(f"loop modifies {name} (None at entry): give its type in the loop contract's `modifies`")
+    if isinstance(cur, SSeq) and cur.kind == "list":
+        # only the length is havocked; the loop cut checks that the element map is unchanged
+        cur.length = eng.fresh_int(name + ".len")
+        eng.assume(compare(">=", cur.length, 0))
+        return cur
     if isinstance(cur, StreamVal):
         cur.data = eng.fresh_array(name + ".data")
         cur.length = eng.fresh_int(name + ".length")
@@ -2112,6 +2206,15 @@ def _make_pickle(I):
 
 
 EXTRA_MODULES["pickle"] = _make_pickle
+
+
+def _make_time(I):
+    from .interp import BuiltinFn
+
+    return NativeModule("time", {"perf_counter": BuiltinFn("perf_counter", lambda: I.eng.fresh_real("clock")), "time": BuiltinFn("time", lambda: I.eng.fresh_real("clock"))})
+
+
+EXTRA_MODULES["time"] = _make_time
 EXTRA_MODULES["numbers"] = lambda I: NativeModule("numbers", {"Real": NumbersReal, "Number": NumbersNumber})
 
 
